@@ -87,13 +87,18 @@ def gen_structure(rng, name=None, natoms=None):
     height = rng.uniform(0.05, 0.3)
     while len(atoms) < natoms:
         # a new molecule: seed near a special position or at a general one
-        mode = rng.choice(['general', 'general', 'near_centre', 'on_centre', 'near_axis'])
+        mode = rng.choice(['general', 'general', 'near_centre', 'on_centre', 'near_axis', 'on_quarter'])
         if shared is not None:
             mode = 'shared_axis'
         if mode == 'general':
             seed = [rng.uniform(0.05, 0.95) for _ in range(3)]
         elif mode == 'on_centre':
             seed = [rng.choice([0.0, 0.5]) for _ in range(3)]
+        elif mode == 'on_quarter':
+            # exact quarters: differences to symmetry equivalents are exactly -1.5, -0.5, 0.5 (the boundary of the wrap into the cell)
+            seed = [rng.uniform(0.05, 0.95) for _ in range(3)]
+            for ax_ in rng.sample(range(3), rng.randint(1, 2)):
+                seed[ax_] = rng.choice([0.25, 0.75, 0.75, 0.5])
         elif mode == 'near_centre':
             d = mv(Mi, [rng.uniform(-0.7, 0.7) for _ in range(3)])
             seed = [rng.choice([0.0, 0.5]) + d[k] for k in range(3)]
